@@ -148,6 +148,12 @@ def oracle1(c, o):
                 return "non-interactive-question-read-or-wrote"
             exp = [0, [2]] if c["d"] is None else [0, [0, S(c["d"])]]
             return None if end == exp else "non-interactive-question-not-default"
+        # typing the exact text of a (unique) choice gives that choice at once
+        if not c["multi"] and c["script"]:
+            first = c["script"][0]
+            if first in cs and cs.count(first) == 1 and first == first.strip() and first != "":
+                if end != [0, [0, S(first)]] or nread != 1 or nerr != 0:
+                    return "typed-choice-text-not-accepted"
         if end[0] == 0:
             a = end[1]
             vals = [unS(a[1])] if a[0] == 0 else ([unS(x) for x in a[1]] if a[0] == 1 else None)
